@@ -7,7 +7,7 @@ from .common import *
 
 META = {
     "level": "other",
-    "explanation": "Exception-flow and sibling-agreement check of every _sizeof/_actualsize: (R1) in all definitions of _sizeof and _actualsize every evaluation of a context-dependent parameter and every context lookup lies inside a try whose handler covers KeyError and AttributeError and raises SizeofError(path); every explicit raise is SizeofError (frozen, documented exemption: PaddingError for negative length / modulus < 2); _sizeof touches no stream; (R2) the amount _sizeof returns equals, as a normalised symbolic term, the net amount _build writes and the net amount _parse reads under the compositional abstraction 'a sub-construct moves the stream by what its own _sizeof returns' (stream-position algebra, see sa/pos.py); (R3) every class whose parse amount is data dependent (reads to end of stream, loops an unbounded number of times over the stream, returns from inside an alternative loop, seeks relative to the end) resolves _sizeof to a definition that raises SizeofError on every path (frozen exemption from the property text: ProcessXor/ProcessRotateLeft read to the end regardless of declared size); (R4) sizeof() enters with the (sizeof) context and the default _actualsize delegates to _sizeof. (R5) the four transforming macros instantiate Transformed/Restreamed with unit amounts and a size computer equal to the inner size through the unit ratio of their decoder (shared with C10.R1/R2).",
+    "explanation": "Exception-flow and sibling-agreement check of every _sizeof/_actualsize: (R1) in all definitions of _sizeof and _actualsize every evaluation of a context-dependent parameter and every context lookup lies inside a try whose handler covers KeyError and AttributeError and raises SizeofError(path); every explicit raise is SizeofError (frozen, documented exemption: PaddingError for negative length / modulus < 2); _sizeof touches no stream; (R2) the amount _sizeof returns equals, as a normalised symbolic term, the net amount _build writes and the net amount _parse reads under the compositional abstraction 'a sub-construct moves the stream by what its own _sizeof returns' (stream-position algebra, see sa/pos.py); (R3) every class whose parse amount is data dependent (reads to end of stream, loops an unbounded number of times over the stream, returns from inside an alternative loop, seeks relative to the end) resolves _sizeof to a definition that raises SizeofError on every path (frozen exemption from the property text: ProcessXor/ProcessRotateLeft read to the end regardless of declared size); (R4) sizeof() enters with the (sizeof) context and the default _actualsize delegates to _sizeof. (R5) the four transforming macros instantiate Transformed/Restreamed with unit amounts and a size computer equal to the inner size through the unit ratio of their decoder (shared with C10.R1/R2). (R6) generated parse/build code moves the stream as the interpreter methods do (shared with C04.R3/R7/R8).",
     "undecided": "That real builds advance by exactly n for all values follows from R2 only under 'sub-constructs honour their own sizeof' (induction over nesting); user callbacks (sizecomputer, lambdas) are opaque.",
     "trusted_base": ["python ast (3.12)", "sa.summ summariser", "sa.pos position algebra", "linear-arithmetic normal form of sa.norm"],
     "assumptions": ["negative lengths / modulus < 2 are exempt by documentation"],
@@ -164,6 +164,9 @@ def run(ctx):
     from . import C15
     C15.length_preserving(ctx, "C05.R5")      # ProcessXor / ProcessRotateLeft report the inner size: the transform must keep the byte count
     ctx.floor("C05.R5", 16)
+    from . import C04
+    C04.shared_obligations(ctx, "C05.R6", {"Prefixed", "PrefixedArray", "Padded", "Aligned", "FixedSized", "Bytes", "Array", "Struct", "Sequence", "IfThenElse", "Switch", "Pointer", "Peek", "FormatField", "BytesInteger"})
+    ctx.floor("C05.R6", 12)
 
     # R2 is produced by the position algebra
     try:
